@@ -33,8 +33,7 @@ class C14(Prop):
     def oracle(self, tier, rng, suspicious):
         """model-free: the real ITEM against the input item minus the attributes the documentation
         assigns to the derived traits, computed on tokens"""
-        cases = self.cases(tier, rng)
-        results = R.run_cases(cases)
+        results = self.l1_results or R.run_cases(self.cases(tier, rng))
         flat_in = R.tokenize([r.item for r in results])
         failures, validated, samples = [], 0, []
         for r, fi in zip(results, flat_in):
